@@ -85,6 +85,21 @@ CLAIMED = {
         'V(SA)..V(S), N(S) within the window) is a precondition; blocking send (wait on a full window), thread schedules '
         'and the two-endpoint composition (paper lemma over a FIFO channel) are not decided.',
    technique='contract-based deductive verification: representation invariant per operation (pyvc)'),
+ 'C19': dict(
+   category='proof',
+   text='Negotiation lemma as a pair of contracts per layer, for all option values in one symbolic case. LLC: '
+        'llc.activate() hands the MAC general bytes that an independent reader (specs/nfcdep.py) decodes to the local '
+        'recv-miu, send-lto, WKS, LSC/DPC and version; and for general bytes an independent encoder builds from '
+        'arbitrary peer settings, cfg[send-miu], recv-lto, send-wks, send-lsc, llcp-dpc become exactly the peer\'s '
+        'values (both roles). NFC-DEP: ATR_REQ/ATR_RES encode and decode against independent layouts incl. the LR '
+        'field; Initiator.activate and Target.activate against a peer modelled from the independent encoders: '
+        'MIU + 3 + DID octet == / <= the LR the peer announced, RWT formula, general bytes, DID adoption, and the '
+        'announced LRi/GBi in the ATR_REQ that is sent.',
+   design_ref='DESIGN.md section 5 (C19)',
+   note='The MAC is replaced by assumed contracts in the LLC proofs; the radio (sense/listen/exchange) is an '
+        'environment model; passive 106A activation without PSL (brs=0) and NAD unused; bit-rate selection and "all '
+        'later traffic stays within the limits" (C04/C10) are not part of this check. Floats are reals.',
+   technique='contract-based deductive verification: encode/decode contracts against independent spec functions (pyvc)'),
 }
 
 NOT_APPLICABLE = {}
